@@ -44,6 +44,11 @@ def op_outcome(op):
         if k == 'load':
             g = parso.load_grammar(version=op['v'])
             return ('ok', 'grammar', g._hashed[:12], str(g.version_info))
+        if k == 'loadpath':
+            # a custom grammar file loaded under this version number, then used once
+            g = parso.load_grammar(version=op['v'], path=_custom_grammar_file())
+            m = g.parse(op['text'])
+            return ('ok', 'custom-grammar', g._hashed[:12], tree_sig(m)[0])
         g = parso.load_grammar(version=op['v'])
         if k == 'parse':
             kw = {}
@@ -87,6 +92,32 @@ class _Abort(BaseException):
 
 
 _CUSTOM = None
+_CUSTOM_GRAMMAR_FILE = None
+
+
+def _custom_grammar_file():
+    """A real file holding the 3.6 grammar of the tree under test (written once, outside /verif and
+    /repo; content is a pure function of the tree under test)."""
+    global _CUSTOM_GRAMMAR_FILE
+    if _CUSTOM_GRAMMAR_FILE is None:
+        import parso
+        import tempfile
+        src = os.path.join(os.path.dirname(parso.__file__), 'python', 'grammar36.txt')
+        with open(src) as f:
+            text = f.read()
+        path = os.path.join(tempfile.gettempdir(), 'verif-c18-custom-grammar-%d.txt' % os.getuid())
+        try:
+            with open(path) as f:
+                same = f.read() == text
+        except OSError:
+            same = False
+        if not same:
+            tmp = '%s.%d' % (path, os.getpid())
+            with open(tmp, 'w') as f:
+                f.write(text)
+            os.replace(tmp, path)
+        _CUSTOM_GRAMMAR_FILE = path
+    return _CUSTOM_GRAMMAR_FILE
 
 
 def _custom_config():
@@ -372,7 +403,7 @@ def make_plan(seed, tier='quick'):
         ops = []
         for _ in range(rng.randint(1, 4) if not sequential else rng.randint(4, 10)):
             v = rng.choice(versions)
-            k = rng.choice(['parse'] * 4 + ['errors'] * 3 + ['pep8', 'tokenize', 'tokenize', 'names', 'load', 'custom'])
+            k = rng.choice(['parse'] * 4 + ['errors'] * 3 + ['pep8', 'tokenize', 'tokenize', 'names', 'load', 'custom', 'loadpath'])
             op = {'k': k, 'v': v}
             if k != 'load':
                 op['text'] = _text(rng)
@@ -651,6 +682,7 @@ def run_check(tier, base_seed, wall, workers, do_selftest):
     print('check C18 tier=%s VERIF_SEED=%d wall=%ds repo=%s' % (tier, base_seed, wall,
                                                                os.environ.get('VERIF_REPO', '/repo')))
     import parso  # noqa: pristine image = parso imported, nothing used
+    _custom_grammar_file()
     st_msg = 'skipped'
     if do_selftest:
         ok, st_msg = selftest(tier, base_seed, 8 if tier == 'quick' else 32)
